@@ -474,9 +474,20 @@ func runMain() int {
 		rep.Extra["race_companion_note"] = "free-running -race pass of the same harness bodies on the un-rewritten code; sampling, not the deciding step"
 		rep.Violations = append(rep.Violations, rr.Violations...)
 		rep.Infra = append(rep.Infra, rr.Infra...)
+		// cross-build agreement: an outcome the real code produced free-running
+		// ("free:" keys) should be one the explorer reached on the rewritten code
+		var unseen []string
 		for k, v := range rr.Outcomes {
+			if strings.HasPrefix(k, "free:") {
+				if _, ok := rep.Outcomes[strings.TrimPrefix(k, "free:")]; !ok {
+					unseen = append(unseen, k)
+				}
+				continue
+			}
 			rep.Outcomes["race:"+k] += v
 		}
+		sort.Strings(unseen)
+		rep.Extra["free_run_outcomes_not_reached_by_explorer"] = unseen
 	}
 	return finish(def, c, rep, time.Since(start))
 }
